@@ -2,14 +2,19 @@
 (* C11, relational part: what the output model O must look like given the source model S.
 
    An abstract graph is a record
-     ins, outs : sequences of <<name, signature>>   (signature = shape|type|quantisation digest)
+     ins, outs : sequences of <<name, signature>>
+                 signature = the members of the tensor table, one string each (harness/flatmodel.TENSOR_FIELDS:
+                 shape, type, scale, zero point, quantised dimension, min, max, quantisation details, variable flag,
+                 shape signature, has_rank, sparsity); an absent member reads like an empty / default one
      ops       : sequence of operator records
-                   [code, ver, opts, copt, ins, outs, cdat]
+                   [code, ver, opts, copt, ins, outs, inter, cdat, tsig]
                  code  = builtin operator name, or "CUSTOM:<custom code>"
                  opts  = digest of the builtin options decoded field by field
                  copt  = digest of the custom options bytes
-                 ins / outs = operand tensor *names* in operand order ("" = absent optional operand)
+                 ins / outs / inter = operand, result and intermediate tensor *names* in vector order
+                         ("" = omitted optional operand, written -1 in the file: positions count)
                  cdat  = per input operand: "type|shape|data digest" for a constant operand, "" otherwise
+                 tsig  = per entry of ins \o outs \o inter: the signature of that tensor (<<>> for an omitted one)
      consts    : sequence of names of constant tensors (tensors with a non-empty buffer)
    Tensor and buffer indices never appear: the writer is free to renumber them.
 
@@ -50,16 +55,22 @@ Foldable(G) == FoldFrom(G, {})
 
 AbsorbedAll(A) == UNION {Rng(A[j]) : j \in 1..Len(A)}
 
-\* ---- the five properties ------------------------------------------------------------
+\* ---- the properties ------------------------------------------------------------
 SameInterface(S, O) == S.ins = O.ins /\ S.outs = O.outs
 
 SameOp(a, b) == /\ a.code = b.code /\ a.ver = b.ver /\ a.opts = b.opts /\ a.copt = b.copt
-                /\ a.ins = b.ins /\ a.outs = b.outs /\ a.cdat = b.cdat
+                /\ a.ins = b.ins /\ a.outs = b.outs /\ a.inter = b.inter /\ a.cdat = b.cdat
 
 MustKeep(S, A, M) == ((Live(S) \ AbsorbedAll(A)) \ Foldable(S)) \cup (Rng(M) \cap OpIdx(S))
 KeptOnceAt(S, O, i) == Cardinality({j \in OpIdx(O) : SameOp(S.ops[i], O.ops[j])}) = 1
 KeptOnce(S, O, A, M) == \A i \in MustKeep(S, A, M) : KeptOnceAt(S, O, i)
 NotKept(S, O, A, M) == {i \in MustKeep(S, A, M) : ~KeptOnceAt(S, O, i)}
+
+\* a kept operator still sees the same tensors: every member of every operand / result / intermediate tensor table
+\* (type, shape, the whole quantisation table, variable flag ...) of a kept operator is what the source said.  The
+\* compiler re-creates tensors at the CPU / NPU boundary, so this is not implied by the operand names.
+OperandTensorsAt(S, O, i) == \A j \in OpIdx(O) : SameOp(S.ops[i], O.ops[j]) => S.ops[i].tsig = O.ops[j].tsig
+OperandTensors(S, O, A, M) == \A i \in MustKeep(S, A, M) : OperandTensorsAt(S, O, i)
 
 \* an operand produced inside the output model is produced by an *earlier* operator
 OutTopo(O) ==
@@ -101,6 +112,7 @@ Failures(e) ==
     IN (IF ~Reparse(e) THEN {"Reparse"} ELSE {})
   \cup (IF e.reparse_plain /\ ~SameInterface(S, O) THEN {"SameInterface"} ELSE {})
   \cup (IF e.reparse_plain /\ ~KeptOnce(S, O, A, M) THEN {"KeptOnce"} ELSE {})
+  \cup (IF e.reparse_plain /\ ~OperandTensors(S, O, A, M) THEN {"OperandTensors"} ELSE {})
   \cup (IF e.reparse_plain /\ ~OutTopo(O) THEN {"OutTopo"} ELSE {})
   \cup (IF e.reparse_plain /\ ~CustomOpBoundary(S, O, A) THEN {"CustomOpBoundary"} ELSE {})
 =============================================================================
